@@ -565,6 +565,7 @@ func main() {
 				for w := 0; w < 8; w++ {
 					wg.Add(1)
 					r := tr.NewRand(g.Seed*977 + uint64(w))
+					w := w
 					go func() {
 						defer wg.Done()
 						const window = 64
@@ -576,6 +577,11 @@ func main() {
 							var ps []pend
 							for j := 0; j < window; j++ {
 								ss := []string{randString(r, metaAlpha, 20), randString(r, metaAlpha, 3)}
+								if r.Chance(1, 4) {
+									// the two strings of a hash-collision pair (round4.go), one per worker parity
+									p := tr.Pick(r, collisionPairs)
+									ss[0] = p[(w+j)%2] + tr.Pick(r, collSuffixes)
+								}
 								switch j % 3 {
 								case 0:
 									in := "Q " + hx(ss[0])
